@@ -24,7 +24,8 @@ def bid(p):
 
 
 def trace(P, fname, page_type, has_crc, verify, stored_crc, computed_crc, codec, levels=True, num_values=10,
-          encoding=0, avail=100000, current_page=0):
+          encoding=0, avail=100000, current_page=0, csize=None, usize=None, view_state=False, capacity=100000,
+          file_size=None, ptype=None, type_length=0, map_align=0):
     fn = P.fn(fname, PR)
     ro = sem.field_offsets(P, "carquet_column_reader")
     fo = sem.field_offsets(P, "carquet_reader")
@@ -36,17 +37,25 @@ def trace(P, fname, page_type, has_crc, verify, stored_crc, computed_crc, codec,
     anon = anon[0] if anon else max(ho.values()) + 8
     own = P.enum("carquet_data_ownership") if "carquet_data_ownership" in P.enums else {}
     pt = P.enum("carquet_physical_type")
+    csize = CSIZE if csize is None else csize
+    usize = USIZE if usize is None else usize
+    fsize = (avail + DATA_OFF) if file_size is None else file_size
     heap0 = {("rd", ro["file_reader"]): Ptr("fr", 0, 1), ("rd", ro["col_meta"]): Ptr("cm", 0, 1),
              ("rd", ro["has_dictionary"]): 1, ("rd", ro["data_start_offset"]): DATA_OFF, ("rd", ro["current_page"]): current_page,
-             ("rd", ro["type"]): pt["CARQUET_PHYSICAL_INT32"], ("rd", ro["type_length"]): 0,
+             ("rd", ro["type"]): pt["CARQUET_PHYSICAL_INT32"] if ptype is None else ptype, ("rd", ro["type_length"]): type_length,
              ("rd", ro["max_def_level"]): 1 if levels else 0, ("rd", ro["max_rep_level"]): 0,
-             ("rd", ro["decoded_ownership"]): own.get("CARQUET_DATA_OWNED", 0), ("rd", ro["decoded_capacity"]): 100000,
-             ("rd", ro["decoded_values"]): Ptr("dv", 0, 1), ("rd", ro["decoded_def_levels"]): Ptr("ddl", 0, 2),
+             ("rd", ro["decoded_ownership"]): own.get("CARQUET_DATA_VIEW", 1) if view_state else own.get("CARQUET_DATA_OWNED", 0),
+             ("rd", ro["decoded_capacity"]): capacity,
+             ("rd", ro["decoded_values"]): Ptr("map", 777, 1) if view_state else Ptr("dv", 0, 1), ("rd", ro["decoded_def_levels"]): Ptr("ddl", 0, 2),
              ("rd", ro["decoded_rep_levels"]): Ptr("drl", 0, 2),
-             ("fr", fo["mmap_data"]): Ptr("map", 0, 1), ("fr", fo["file_size"]): avail + DATA_OFF, ("fr", fo["file"]): Ptr("FILE", 0, 1),
+             ("fr", fo["mmap_data"]): Ptr("map", 0, 1), ("fr", fo["file_size"]): fsize, ("fr", fo["file"]): Ptr("FILE", 0, 1),
              ("fr", fo["options"] + oo["verify_checksums"]): 1 if verify else 0,
              ("cm", mo["codec"]): codec, ("cm", mo["dictionary_page_offset"]): DICT_OFF,
              ("cm", mo["has_dictionary_page_offset"]): 1, ("cm", mo["data_page_offset"]): DATA_OFF}
+    # the column reader is a calloc'ed object: members the scenario does not set are zero
+    for f_ in P.record("carquet_column_reader")["fields"]:
+        if f_.get("off") is not None and f_["n"] and "[" not in f_["t"] and P.records.get(f_["t"].replace("struct ", "").replace("_t", "")) is None:
+            heap0.setdefault(("rd", f_["off"] // 8), 0)
     nm = [0]
 
     def parse_hdr(ev, a, it):
@@ -54,8 +63,8 @@ def trace(P, fname, page_type, has_crc, verify, stored_crc, computed_crc, codec,
         h = a[2]
         if isinstance(h, Ptr):
             it.heap[(h.base, h.off + ho["type"])] = page_type
-            it.heap[(h.base, h.off + ho["uncompressed_page_size"])] = USIZE
-            it.heap[(h.base, h.off + ho["compressed_page_size"])] = CSIZE
+            it.heap[(h.base, h.off + ho["uncompressed_page_size"])] = usize
+            it.heap[(h.base, h.off + ho["compressed_page_size"])] = csize
             it.heap[(h.base, h.off + ho["has_crc"])] = 1 if has_crc else 0
             it.heap[(h.base, h.off + ho["crc"])] = stored_crc
             it.heap[(h.base, h.off + anon + dho["num_values"])] = num_values
@@ -69,33 +78,56 @@ def trace(P, fname, page_type, has_crc, verify, stored_crc, computed_crc, codec,
         return Ptr("m%d" % nm[0], 0, 1)
 
     def read_at(ev, a, it):
+        got = a[3]
+        if isinstance(a[1], int) and isinstance(a[3], int):
+            got = max(0, min(a[3], fsize - a[1])) if a[1] >= 0 else 0
         ev.append(("read", a[1], bid(a[2]), a[3]))
-        sem.set_out(it, a[4], a[3])
+        sem.set_out(it, a[4], got)
+        return 0
+    fpos = [0]
+
+    def fseek(ev, a, it):
+        fpos[0] = a[1]
+        return 0
+
+    def fread(ev, a, it):
+        want = a[1] * a[2] if isinstance(a[1], int) and isinstance(a[2], int) else a[2]
+        got = max(0, min(want, fsize - fpos[0])) if isinstance(want, int) and isinstance(fpos[0], int) and fpos[0] >= 0 else want
+        ev.append(("read", fpos[0], bid(a[0]), want))
+        return got
+
+    def read_page(ev, a, it):
+        ev.append(("consume-page", bid(a[1]), a[2]))
+        nv = it.heap.get((a[3].base, a[3].off + dho["num_values"])) if isinstance(a[3], Ptr) and isinstance(a[3].off, int) else U
+        if len(a) > 8:
+            sem.set_out(it, a[8], nv)       # *values_read: the decoder reports the page's value count
         return 0
 
     def codec_hook(name):
         def h(ev, a, it):
             ev.append(("decompress", name, bid(a[0]), a[1], bid(a[2]), a[3]))
             if len(a) > 4:
-                sem.set_out(it, a[4], USIZE)
+                sem.set_out(it, a[4], usize)
             return 0
         return h
     hooks = {"parquet_parse_page_header": parse_hdr, "malloc": malloc,
              "free": lambda ev, a, it: ev.append(("free", bid(a[0]))),
-             "read_at": read_at, "fseek": lambda ev, a, it: 0,
-             "fread": lambda ev, a, it: ev.append(("read", None, bid(a[0]), a[2])) or a[2],
-             "mmap_available": lambda ev, a, it: (avail if isinstance(a[1], int) and a[1] >= 0 else 0),
+             "read_at": read_at, "fseek": fseek, "fread": fread,
+             "mmap_available": lambda ev, a, it: (max(0, fsize - a[1]) if isinstance(a[1], int) and a[1] >= 0 else 0),
              "carquet_crc32": lambda ev, a, it: ev.append(("crc", bid(a[0]), a[1])) or computed_crc,
              "carquet_error_set": lambda ev, a, it: None,
              "carquet_read_dictionary_page": lambda ev, a, it: ev.append(("consume-dict", bid(a[1]), a[2])) or 0,
-             "carquet_read_data_page_v1": lambda ev, a, it: ev.append(("consume-page", bid(a[1]), a[2])) or 0,
+             "carquet_read_data_page_v1": read_page,
              "memset": lambda ev, a, it: a[0], "memcpy": lambda ev, a, it: ev.append(("copy", bid(a[0]), bid(a[1]), a[2])) or a[0]}
     for st in ("snappy", "lz4", "gzip", "zstd"):
         hooks["carquet_%s_decompress" % st] = codec_hook(st)
-    ret, ev, heap = sem.run(P, fn, [Ptr("rd", 0, 1), 0], heap0=heap0, hooks=hooks, single=True, max_forks=64, budget=200000)
+    ret, ev, heap = sem.run(P, fn, [Ptr("rd", 0, 1), 0], heap0=heap0, hooks=hooks, single=True, max_forks=64, budget=200000, on_start=lambda: (nm.__setitem__(0, 0), fpos.__setitem__(0, 0)),
+                            align={"map": map_align, "dv": 0, "ddl": 0, "drl": 0, "m1": 0, "m2": 0, "m3": 0, "m4": 0})
     view = heap.get(("rd", ro["decoded_values"]))
     return ret, ev, {"decoded_values": bid(view), "page_loaded": heap.get(("rd", ro["page_loaded"])),
                      "data_start_offset": heap.get(("rd", ro["data_start_offset"])),
+                     "decoded_ownership": heap.get(("rd", ro["decoded_ownership"])),
+                     "page_values_read": heap.get(("rd", ro["page_values_read"])),
                      "page_header_size": heap.get(("rd", ro["page_header_size"])),
                      "page_compressed_size": heap.get(("rd", ro["page_compressed_size"])),
                      "page_num_values": heap.get(("rd", ro["page_num_values"]))}
